@@ -19,6 +19,8 @@ def check(chk):
     chk.rule('C40.duration', 'DurationTypeIO.serialize: the sub-second part (microseconds / 1e6) is added to an integer number of seconds (int-kind dataflow); the text format has no exponent form and the reader accepts what the writer can emit (sign of the day count)')
     m = chk.repo.mod(GS)
     _duration_rule(chk, m)
+    chk.rule('C40.lossless', 'date / time / instant text forms are produced by isoformat() without a precision limit')
+    _lossless_rule(chk, m)
     classes = dict((q, c) for q, c in m.classes() if '.' not in q)
 
     def attr(cname, name):
@@ -77,6 +79,22 @@ def check(chk):
         ser[1][k] = v
     chk.judge('GraphSON1Serializer.get_type_definitions()' in src(classes['GraphSON2Serializer']) and 'GraphSON2Serializer.get_type_definitions()' in src(classes['GraphSON3Serializer']),
               'C40.closure', classes['GraphSON2Serializer'], 'GraphSON2/3 registries start from the previous version\'s', 'registry inheritance changed')
+    # module-level order: a version's table is a snapshot (.copy()) taken when its class body runs; what is registered on the older
+    # version afterwards never reaches it
+    chk.rule('C40.order', 'every register() on a serializer class runs before the class statement of the next version, which snapshots that table')
+    pos = dict((st.name, i) for i, st in enumerate(m.tree.body) if isinstance(st, ast.ClassDef))
+    nxt_cls = {'GraphSON1Serializer': 'GraphSON2Serializer', 'GraphSON2Serializer': 'GraphSON3Serializer'}
+    late = []
+    for i, st in enumerate(m.tree.body):
+        if isinstance(st, ast.Expr) and isinstance(st.value, ast.Call) and isinstance(st.value.func, ast.Attribute) and st.value.func.attr == 'register':
+            who = src(st.value.func.value)
+            if who in nxt_cls and nxt_cls[who] in pos and i > pos[nxt_cls[who]]:
+                late.append((st, who))
+    for st, who in late:
+        chk.viol('C40.order', st, src(st)[:80], 'registered on %s after %s has copied its table: GraphSON %s cannot serialize this python type although GraphSON %s can'
+                 % (who, nxt_cls[who], nxt_cls[who][8], who[8]))
+    if not late:
+        chk.ok('C40.order', m.tree, '%d register() calls precede the next version\'s class statement' % sum(len(v) for v in regs.values()))
     ser[2] = dict(ser[1]); ser[2].update(regs[2])
     ser[3] = dict(ser[2]); ser[3].update(regs[3])
     if len(ser[3]) < 20:
@@ -224,3 +242,19 @@ def _duration_rule(chk, mod):
     pat = rx[0].value.args[0].value if rx and isinstance(rx[0].value, ast.Call) and rx[0].value.args and isinstance(rx[0].value.args[0], ast.Constant) else ''
     chk.judge('(?P<days>-?' in pat, 'C40.duration', rx[0] if rx else cls, 'the reader accepts a negative day count (timedelta normalises a negative duration to negative days)',
               'the writer emits a negative day count for negative durations but the reader\'s pattern only accepts digits')
+
+
+def _lossless_rule(chk, m):
+    """text forms written by the TypeIO serializers keep the whole value: no precision-limiting argument to isoformat()"""
+    n = 0
+    for q, f in m.functions():
+        if not q.endswith('.serialize'):
+            continue
+        for c in body_walk(f):
+            if isinstance(c, ast.Call) and isinstance(c.func, ast.Attribute) and c.func.attr == 'isoformat':
+                n += 1
+                kw = [k.arg for k in c.keywords]
+                chk.judge('timespec' not in kw and len(c.args) <= 1, 'C40.lossless', c, '%s: %s keeps full (microsecond) precision' % (q, src(c)),
+                          'isoformat is given a precision limit (%s): the sub-millisecond part of an instant is dropped on serialization and does not come back' % src(c))
+    if n < 2:
+        raise AnalysisError('C40.lossless: isoformat() calls in the TypeIO serializers not found (%d)' % n)
